@@ -132,7 +132,9 @@ def step (s : Srv) : In → Srv × List Out
       | .cack => (setSess s sid { x with state := .auth }, [])
       | .cnak => (s, [.lcpreq sid x.mac])
       | .echo => (s, [.lcperep sid x.mac])
-      | .term => ({ s with sessions := AMap.erase s.sessions sid }, [.lcptack sid x.mac])
+      | .term =>
+        let s1 := poolRelease s x.serial
+        ({ s1 with sessions := AMap.erase s1.sessions sid }, [.lcptack sid x.mac])
   | .pap m sid _ r =>
     match ownerGate s m sid with
     | none => (s, [])
